@@ -240,7 +240,7 @@ static void check_pair (const char *label, const Ans * base, const Ans * f, cons
 		mpq_mul (expv, F->vs, base->val); mpq_add (expv, expv, F->vo);
 		tr_mpq (f->val);
 		if (!mpq_equal (expv, f->val)) {
-			char *a = mpq_get_str (NULL, 10, f->val), *b = mpq_get_str (NULL, 10, expv);
+			char *a = q_str (f->val), *b = q_str (expv);
 			viol ("C15", "value-differs", "%s: after [%s] the optimum is %s but the transformed base optimum is %s", label, path, a, b);
 			free (a); free (b);
 		}
